@@ -628,7 +628,7 @@ class Frame:
         self.self_cls, self.exact, self.kind = self_cls or cls, exact, kind
         self.locals = assigned_names(fn) if fn is not None else set()
         self.vars, self.consts, self.funcs, self.fn_unknown, self.mods = {}, {}, {}, set(), {}
-        self.ret = tr.newvar()
+        self.ret = tr.newvar(keep=True)
         self.ret_funcs, self.ret_unknown, self.ret_objs = set(), False, False
         self.ret_flags = []
         self.ret_items = None     # None: no return seen; False: not always an n-tuple display; else component variables
@@ -656,7 +656,7 @@ class Frame:
 
     def var(self, name):
         if name not in self.vars:
-            self.vars[name] = self.tr.newvar()
+            self.vars[name] = self.tr.newvar(keep=True)
         return self.vars[name]
 
     def method_frame(self):
@@ -681,6 +681,7 @@ class Translator:
     def __init__(self, src):
         self.src = src
         self.nv = 0
+        self.keep = set()
         self.sites = {}
         self.site_desc = {}
         self.diag = {}
@@ -690,8 +691,13 @@ class Translator:
         self.budget = 0
 
     # ---- small helpers ---------------------------------------------------------------------
-    def newvar(self):
+    def newvar(self, keep=False):
+        """keep=True: a variable whose value is carried across statements / loop iterations (Python locals,
+        return accumulators, diagnostics); the others are expression temporaries (written before they are read,
+        within one evaluation) and are packed into few slots by compact_vars"""
         self.nv += 1
+        if keep:
+            self.keep.add(self.nv - 1)
         return self.nv - 1
 
     def site(self, node, fr, what=""):
@@ -706,7 +712,7 @@ class Translator:
 
     def diagvar(self, attr):
         if attr not in self.diag:
-            self.diag[attr] = self.newvar()
+            self.diag[attr] = self.newvar(keep=True)
         return self.diag[attr]
 
     def elems(self, v, out, pos=None, views=True):
@@ -1588,7 +1594,7 @@ class Translator:
             self.fresh_at(pv, self.site(fn, nf, "kwargs"), refs, pre, pos)
         body_stmts = fn.body if isinstance(fn, ast.FunctionDef) else [ast.Return(value=fn.body)]
         if isinstance(fn, ast.FunctionDef) and has_yield(fn):
-            nf.gen = self.newvar()
+            nf.gen = self.newvar(keep=True)
             pre.append(FRESH(nf.gen, self.site(fn, nf, "generator"), [], pos))
         self.stack.append((key, nf))
         try:
@@ -1649,7 +1655,7 @@ class Translator:
                     self.refresh_closures(fr, v, out, pos)
                     if v.items is not None and fr.ret_items is not False and (fr.ret_items is None or len(fr.ret_items) == len(v.items)):
                         if fr.ret_items is None:
-                            fr.ret_items = [self.newvar() for _ in v.items]
+                            fr.ret_items = [self.newvar(keep=True) for _ in v.items]
                         for rv, iv in zip(fr.ret_items, v.items):
                             out.append(ALIAS(rv, [rv, iv], pos))
                     else:
@@ -1963,6 +1969,172 @@ def entry_heap(src):
     return {TAG_PROT: h0, TAG_OWN: h1, TAG_DIAG: {(ANY, TAG_DIAG)}}
 
 
+OTHER = 2
+
+
+def stmt_vars(s):
+    k = s[0]
+    if k == "alias":
+        return [s[1]] + s[2]
+    if k == "load":
+        return [s[1]] + s[3]
+    if k == "fresh":
+        return [s[1]] + s[3]
+    if k == "mut":
+        return [s[1]]
+    if k == "store":
+        return [s[1], s[3]]
+    if k == "call":
+        return [s[1], s[3], s[4], s[5]] + s[6] + s[7]
+    return []
+
+
+def rename_stmt(s, m):
+    k = s[0]
+    g = lambda x: m.get(x, x)
+    if k == "alias":
+        return (k, g(s[1]), [g(y) for y in s[2]], s[3])
+    if k == "load":
+        return (k, g(s[1]), s[2], [g(y) for y in s[3]], s[4])
+    if k == "fresh":
+        return (k, g(s[1]), s[2], [g(y) for y in s[3]], s[4])
+    if k == "mut":
+        return (k, g(s[1]), s[2])
+    if k == "store":
+        return (k, g(s[1]), s[2], g(s[3]), s[4])
+    if k == "call":
+        return (k, g(s[1]), s[2], g(s[3]), g(s[4]), g(s[5]), [g(y) for y in s[6]], [g(y) for y in s[7]], s[8])
+    raise AssertionError(k)
+
+
+def compact_vars(body, keep, first):
+    """Pack the expression temporaries into few variables.  A temporary is owned by the deepest block that
+    contains all its occurrences; within a block two temporaries share a slot when the ranges of statements
+    they occur in are disjoint; nested blocks use slots above those of the enclosing blocks.  Sound for the
+    may-analysis: a temporary is written before it is read within one evaluation, and a stale slot content can
+    only ADD aliases.  `keep` variables are renumbered densely in order of first, the rest follow."""
+    kmap = {}
+    for v in first:
+        kmap.setdefault(v, len(kmap))
+
+    def collect(b):
+        for s in b:
+            if s[0] == "if":
+                collect(s[1]); collect(s[2])
+            elif s[0] == "loop":
+                collect(s[1])
+            else:
+                for v in stmt_vars(s):
+                    if v in keep and v not in kmap:
+                        kmap[v] = len(kmap)
+    collect(body)
+    nkeep = len(kmap)
+    top = [nkeep]
+
+    def vars_of(s, cache={}):
+        if s[0] == "if":
+            return block_vars(s[1]) | block_vars(s[2])
+        if s[0] == "loop":
+            return block_vars(s[1])
+        return {v for v in stmt_vars(s) if v not in kmap}
+
+    memo = {}
+
+    def block_vars(b):
+        key = id(b)
+        if key not in memo:
+            r = set()
+            for s in b:
+                r |= vars_of(s)
+            memo[key] = r
+        return memo[key]
+
+    def do_block(b, base, m):
+        occ = {}
+        per = [vars_of(s) for s in b]
+        for i, vs in enumerate(per):
+            for v in vs:
+                if v in m:
+                    continue
+                occ.setdefault(v, []).append(i)
+        owned = {}
+        for v, idx in occ.items():
+            i = idx[0]
+            if len(idx) > 1 or b[i][0] not in ("if", "loop"):
+                owned[v] = (idx[0], idx[-1])
+            elif b[i][0] == "if" and v in block_vars(b[i][1]) and v in block_vars(b[i][2]):
+                owned[v] = (i, i)
+        # interval colouring
+        free_at = []          # slot -> index after which it is free
+        m2 = dict(m)
+        for v, (lo, hi) in sorted(owned.items(), key=lambda kv: (kv[1][0], kv[1][1], kv[0])):
+            for k, e in enumerate(free_at):
+                if e < lo:
+                    free_at[k] = hi
+                    m2[v] = base + k
+                    break
+            else:
+                free_at.append(hi)
+                m2[v] = base + len(free_at) - 1
+        nb = base + len(free_at)
+        top[0] = max(top[0], nb)
+        out = []
+        for s in b:
+            if s[0] == "if":
+                out.append(("if", do_block(s[1], nb, m2), do_block(s[2], nb, m2)))
+            elif s[0] == "loop":
+                out.append(("loop", do_block(s[1], nb, m2)))
+            else:
+                out.append(rename_stmt(s, m2))
+        return out
+
+    return do_block(body, nkeep, dict(kmap)), kmap, top[0]
+
+
+def compact_fields(body, src):
+    """Per-program field numbering: 0 any, 1 element, 2 = every attribute name this program never
+    mentions, 3.. = the attribute names it loads / stores.  Returns (body', entry heap)."""
+    rev = {f: n for n, f in src.fields.items()}
+    used = []
+
+    def scan(b):
+        for s in b:
+            if s[0] == "if":
+                scan(s[1]); scan(s[2])
+            elif s[0] == "loop":
+                scan(s[1])
+            elif s[0] in ("load", "store") and s[2] >= 2 and s[2] not in used:
+                used.append(s[2])
+    scan(body)
+    ren = {ANY: ANY, ELEM: ELEM}
+    for i, f in enumerate(used):
+        ren[f] = 3 + i
+
+    def rw(b):
+        out = []
+        for s in b:
+            if s[0] == "if":
+                out.append(("if", rw(s[1]), rw(s[2])))
+            elif s[0] == "loop":
+                out.append(("loop", rw(s[1])))
+            elif s[0] == "load":
+                out.append(("load", s[1], ren[s[2]], s[3], s[4]))
+            elif s[0] == "store":
+                out.append(("store", s[1], ren[s[2]], s[3], s[4]))
+            else:
+                out.append(s)
+        return out
+    h0 = {(ELEM, TAG_PROT), (OTHER, TAG_PROT)}
+    h1 = {(ANY, TAG_OWN)}
+    for f in used:
+        if rev[f] in T.DIAG_FIELDS:
+            h0.add((ren[f], TAG_DIAG))
+            h1.add((ren[f], TAG_DIAG))
+        else:
+            h0.add((ren[f], TAG_PROT))
+    return rw(body), {TAG_PROT: h0, TAG_OWN: h1, TAG_DIAG: {(ANY, TAG_DIAG)}}, {ren[f]: rev[f] for f in used}
+
+
 def build_program(src, name, module, fn, cls=None, kind="function", spec=None):
     """One program: fn called with arbitrary caller-owned arguments."""
     tr = Translator(src)
@@ -2010,7 +2182,11 @@ def build_program(src, name, module, fn, cls=None, kind="function", spec=None):
     err = None
     try:
         r = tr.inline(top, fv, args, kw, extra, fn, body)
-        rets = [r.var] if r.var is not None else []
+        rets = []
+        if r.var is not None:
+            rv = tr.newvar(keep=True)
+            body.append(ALIAS(rv, [r.var], (module.name, fn.lineno)))
+            rets = [rv]
         if ir_size(body) > MAX_IR:
             raise Unsupported("IR too large (%d statements)" % ir_size(body))
     except Unsupported as e:
@@ -2022,7 +2198,14 @@ def build_program(src, name, module, fn, cls=None, kind="function", spec=None):
         pv = tr.newvar() if not entry_v else sorted(entry_v)[0]
         entry_v = {pv: {TAG_PROT}}
         body, rets = [MUT(pv, ("untranslatable", err))], []
-    return {"name": name, "body": body, "entry_v": entry_v, "entry_h": entry_heap(src), "protected": [TAG_PROT],
+    body, eh, fnames = compact_fields(body, src)
+    raw_vars = tr.nv
+    if err is None:
+        body, kmap, nslots = compact_vars(body, tr.keep | set(entry_v), sorted(entry_v))
+        entry_v = {kmap[v]: ts for v, ts in entry_v.items()}
+        rets = [kmap.get(r, r) for r in rets]
+        tr.nv = nslots
+    return {"name": name, "raw_vars": raw_vars, "body": body, "entry_v": entry_v, "entry_h": eh, "field_names": fnames, "protected": [TAG_PROT],
             "rets": rets, "ret_fresh": bool(rf is not None and err is None), "error": err, "claims": tr.claims,
             "failclosed": tr.failclosed, "site_desc": tr.site_desc, "nvars": tr.nv, "nsites": len(tr.sites), "size": ir_size(body),
             "file": module.name + ".py", "line": fn.lineno}
@@ -2137,6 +2320,13 @@ def control_mutants(repo):
 # part 6: Progs.v
 # ================================================================================================
 GEN_PATH = os.path.join(core.COQ, "theories", "Effects", "gen", "Progs.v")
+NSHARDS = 8
+SHARD_TEXT = """(* GENERATED by harness/translate_effects.py - the checker evaluated on shard %(k)d of gen/Progs.v *)
+From Coq Require Import List Bool.
+From Catii Require Import Effects.IR Effects.Sem Effects.Analysis Effects.gen.Progs.
+Lemma shard%(k)d_pure : forallb pure shard%(k)d = true.
+Proof. vm_compute. reflexivity. Qed.
+"""
 INFO_PATH = os.path.join(core.CACHE, "effects_progs.json")
 
 
@@ -2169,24 +2359,33 @@ def generate(repo):
     for k in range(1, max_number(progs + controls) + 1):
         lines.append("Definition n%d : nat := S n%d." % (k, k - 1))
     lines.append("")
-    if err is None and progs:
-        lines.append("(* what caller-owned memory looks like at entry: tag 0 (protected) objects reference tag-0 objects under every\n"
-                     "   field, except the diagnostics fields, which lead to the diagnostics world (tag 2); tag 1 = memory the\n"
-                     "   function may write (result regions, `self` of constructors) *)")
-        lines.append("Definition caller_heap : list (list (field * tag)) := %s." % coq_heap(progs[0]["entry_h"]))
-        for p in progs + controls:
-            p["entry_h_name"] = "caller_heap"
+    lines.append("(* entry heaps: tag 0 (protected caller memory) objects reference tag-0 objects under every field (1 element,\n"
+                 "   2 = any attribute the program never mentions, 3.. = the attributes it mentions), except the diagnostics\n"
+                 "   attributes, which lead to the diagnostics world (tag 2); tag 1 = caller memory the function may write *)")
     for i, p in enumerate(progs):
         lines.append(coq_program(i, p))
-    lines.append("Definition all_progs : list program := [\n  %s\n]." % ";\n  ".join(coq_ident(p["name"]) for p in progs))
+    # shards of roughly equal checking cost: gen/Shard<k>.v evaluates the checker on shard k (in parallel)
+    shards = [[] for _ in range(NSHARDS)]
+    load = [0] * NSHARDS
+    for p in sorted(progs, key=lambda q: -(q["size"] * max(1, q["nvars"]))):
+        k = load.index(min(load))
+        shards[k].append(p)
+        load[k] += p["size"] * max(1, p["nvars"]) + 2000
+    order = {p["name"]: i for i, p in enumerate(progs)}
+    for k in range(NSHARDS):
+        shards[k].sort(key=lambda q: order[q["name"]])
+        lines.append("Definition shard%d : list program := [%s]." % (k, "; ".join(coq_ident(p["name"]) for p in shards[k])))
+    lines.append("Definition all_progs : list program := %s." % " ++ ".join("shard%d" % k for k in range(NSHARDS)))
     lines.append("")
     for j, p in enumerate(controls):
         lines.append(coq_program(1000 + j, p).replace(coq_ident(p["name"]), "control_%d" % j))
     lines.append("(* control mutants: the same translator on the same sources with ONE `x = x.copy()` deleted *)")
     lines.append("Definition neg_progs : list program := [%s]." % "; ".join("control_%d" % j for j in range(len(controls))))
     text = "\n".join(lines) + "\n"
+    for p in progs:
+        p["shard"] = [k for k in range(NSHARDS) if p in shards[k]][0]
     info = {"ok": err is None, "error": err, "repo": repo,
-            "programs": [{k: p[k] for k in ("name", "ret_fresh", "error", "size", "nvars", "nsites", "failclosed", "file", "line")} for p in progs],
+            "programs": [{k: p[k] for k in ("name", "ret_fresh", "error", "size", "nvars", "nsites", "failclosed", "file", "line", "shard")} for p in progs],
             "runtime_only": {n: T.RUNTIME_ONLY[n] for n in runtime_only},
             "controls": [p["name"] for p in controls],
             "claims": [c for p in progs for c in p["claims"]]}
@@ -2198,6 +2397,8 @@ def regenerate(repo=None, with_mirror=False):
     repo = repo or core.REPO
     text, info, progs, controls = generate(repo)
     core.write_if_changed(GEN_PATH, text)
+    for k in range(NSHARDS):
+        core.write_if_changed(os.path.join(os.path.dirname(GEN_PATH), "Shard%d.v" % k), SHARD_TEXT % {"k": k})
     if with_mirror:
         for p, pi in zip(progs, info["programs"]):
             ok, why = mirror_pure(p)
